@@ -758,6 +758,8 @@ fn c09_case(seed: u64, case: u64) -> (Verdict, String, String, bool, String, J, 
 enum SStep {
     Suspend,
     Delay(u64),
+    /// parked inside a "system call" with a timeout, the way `EventLoop::wait_just` parks a coroutine
+    SysDelay(u64),
 }
 
 #[derive(Clone, Debug)]
@@ -767,6 +769,7 @@ struct Stamp {
     at: u64,
     pass: u64,
     due: u64, // wake-up time requested by the delay that just returned (0 = none)
+    woke: u8, // for a wait parked in a system call: 1 = woken by its timeout, 2 = woken by a callback, 3 = anything else
 }
 
 fn c10_case(seed: u64, case: u64) -> (Verdict, String, String, bool, String, J, J) {
@@ -776,7 +779,13 @@ fn c10_case(seed: u64, case: u64) -> (Verdict, String, String, bool, String, J, 
     let progs: Vec<(Vec<SStep>, bool, i64)> = (0..n)
         .map(|_| {
             let k = rng.usize(0, 5);
-            let steps = (0..k).map(|_| if rng.chance(1, 2) { SStep::Suspend } else { SStep::Delay(rng.range(1, 25)) }).collect();
+            let steps = (0..k)
+                .map(|_| match rng.below(6) {
+                    0..=2 => SStep::Suspend,
+                    3 | 4 => SStep::Delay(rng.range(1, 25)),
+                    _ => SStep::SysDelay(rng.range(1, 25)),
+                })
+                .collect();
             (steps, rng.chance(1, 6), rng.below(5) as i64 - 2)
         })
         .collect();
@@ -788,17 +797,37 @@ fn c10_case(seed: u64, case: u64) -> (Verdict, String, String, bool, String, J, 
         let id = sch
             .submit_co(
                 move |s: &SchedulableSuspender, ()| -> Option<usize> {
-                    lg.lock().unwrap().push(Stamp { co: i, step: 0, at: now(), pass: PASS.load(Ordering::SeqCst), due: 0 });
+                    lg.lock().unwrap().push(Stamp { co: i, step: 0, at: now(), pass: PASS.load(Ordering::SeqCst), due: 0, woke: 0 });
                     for (k, st) in steps.iter().enumerate() {
                         let mut due = 0;
+                        let mut woke = 0;
                         match *st {
                             SStep::Suspend => s.suspend(),
                             SStep::Delay(ms) => {
                                 due = now() + ms * 1_000_000;
                                 s.until(due);
                             }
+                            SStep::SysDelay(ms) => {
+                                let co = SchedulableCoroutine::current().expect("current");
+                                co.syscall((), SyscallName::nanosleep, SyscallState::Executing).expect("enter call");
+                                due = now() + ms * 1_000_000;
+                                co.syscall((), SyscallName::nanosleep, SyscallState::Suspend(due)).expect("park in call");
+                                s.until(due);
+                                let at = now();
+                                woke = match co.state() {
+                                    CoroutineState::Syscall((), _, SyscallState::Timeout) => 1,
+                                    CoroutineState::Syscall((), _, SyscallState::Callback) => 2,
+                                    _ => 3,
+                                };
+                                if woke != 3 {
+                                    co.syscall((), SyscallName::nanosleep, SyscallState::Executing).expect("back in call");
+                                    co.running().expect("leave call");
+                                }
+                                lg.lock().unwrap().push(Stamp { co: i, step: k + 1, at, pass: PASS.load(Ordering::SeqCst), due, woke });
+                                continue;
+                            }
                         }
-                        lg.lock().unwrap().push(Stamp { co: i, step: k + 1, at: now(), pass: PASS.load(Ordering::SeqCst), due });
+                        lg.lock().unwrap().push(Stamp { co: i, step: k + 1, at: now(), pass: PASS.load(Ordering::SeqCst), due, woke });
                     }
                     if panics {
                         panic!("c10 scripted panic of coroutine {i}");
@@ -814,6 +843,10 @@ fn c10_case(seed: u64, case: u64) -> (Verdict, String, String, bool, String, J, 
     // cancel plan: (pass index at which to request, coroutine)
     let ncancel = if rng.chance(1, 2) { rng.usize(1, 1 + n / 4) } else { 0 };
     let cancels: Vec<(u64, usize)> = (0..ncancel).map(|_| (rng.range(0, 6), rng.usize(0, n - 1))).collect();
+    // callback plan: before the given pass the harness plays the event loop and calls `try_resume` for a coroutine
+    let sys_cos: Vec<usize> = (0..n).filter(|i| progs[*i].0.iter().any(|s| matches!(s, SStep::SysDelay(_)))).collect();
+    let callbacks: Vec<(u64, usize)> = if sys_cos.is_empty() || rng.chance(1, 2) { vec![] } else { (0..rng.usize(1, 3)).map(|_| (rng.range(1, 6), *rng.pick(&sys_cos))).collect() };
+    let mut callbacks_made = vec![0usize; n];
     let mut cancelled_at: Vec<Option<(u64, usize)>> = vec![None; n]; // (time, stamps already logged)
     let mut results: std::collections::HashMap<u64, Vec<Result<Option<usize>, String>>> = std::collections::HashMap::new();
     let mut pass_starts: Vec<u64> = vec![];
@@ -827,6 +860,12 @@ fn c10_case(seed: u64, case: u64) -> (Verdict, String, String, bool, String, J, 
                 Scheduler::try_cancel_coroutine(ids[*c]);
                 let stamps = log.lock().unwrap().iter().filter(|s| s.co == *c).count();
                 cancelled_at[*c] = Some((now(), stamps));
+            }
+        }
+        for (at, c) in &callbacks {
+            if *at == pass_no {
+                sch.try_resume(ids[*c]);
+                callbacks_made[*c] += 1;
             }
         }
         pass_no += 1;
@@ -882,8 +921,17 @@ fn c10_case(seed: u64, case: u64) -> (Verdict, String, String, bool, String, J, 
                 }
             }
             // (2) delays
+            let by_callback = mine.iter().filter(|s| s.woke == 2).count();
+            if by_callback > callbacks_made[i] {
+                viol = Some(("woken-by-a-callback-nobody-made".into(), format!("coroutine {i}: {by_callback} wake-ups by callback, {} callbacks were made for it", callbacks_made[i])));
+                break;
+            }
+            if let Some(s) = mine.iter().find(|s| s.woke == 3) {
+                viol = Some(("resumed-in-a-call-without-timeout-or-callback".into(), format!("coroutine {i} step {}", s.step)));
+                break;
+            }
             for s in &mine {
-                if s.due != 0 {
+                if s.due != 0 && s.woke != 2 {
                     if s.at < s.due {
                         viol = Some(("resumed-before-wake-up-time".into(), format!("coroutine {i} step {} resumed {} ns early", s.step, s.due - s.at)));
                         break;
@@ -922,11 +970,13 @@ fn c10_case(seed: u64, case: u64) -> (Verdict, String, String, bool, String, J, 
             }
         }
     }
-    let delays = progs.iter().map(|p| p.0.iter().filter(|s| matches!(s, SStep::Delay(_))).count()).sum::<usize>();
+    let delays = progs.iter().map(|p| p.0.iter().filter(|s| matches!(s, SStep::Delay(_) | SStep::SysDelay(_))).count()).sum::<usize>();
+    let sys_delays = progs.iter().map(|p| p.0.iter().filter(|s| matches!(s, SStep::SysDelay(_))).count()).sum::<usize>();
     let desc = jobj! {"coroutines" => n, "programs" => progs.iter().take(8).map(|p| format!("{:?}{} prio {}", p.0, if p.1 {" panic"} else {""}, p.2)).collect::<Vec<_>>(),
         "cancel_requests_before_pass" => cancels.iter().map(|(a, c)| format!("pass {a}: co{c}")).collect::<Vec<_>>()};
     let fp = fp_of(&format!("{:?}{:?}", progs.iter().map(|p| p.0.len()).collect::<Vec<_>>(), cancels));
-    let obs = jobj! {"passes" => pass_no, "resumption_stamps" => lg.len(), "results" => results.len(), "delays" => delays, "cancel_requests" => cancels.len()};
+    let obs = jobj! {"passes" => pass_no, "resumption_stamps" => lg.len(), "results" => results.len(), "delays" => delays, "waits_parked_in_a_call" => sys_delays, "woken_by_timeout" => lg.iter().filter(|s| s.woke == 1).count(),
+        "woken_by_callback" => lg.iter().filter(|s| s.woke == 2).count(), "callbacks_made" => callbacks_made.iter().sum::<usize>(), "cancel_requests" => cancels.len()};
     if viol.is_some() {
         std::mem::forget(sch); // never run Drop assertions on a broken state; the caller exits the process
     } else {
